@@ -660,13 +660,17 @@ class CSSStyleDeclaration(CSS2Properties, cssutils.util.Base2):
                 nname = self._normalize(name)
                 properties = self.getProperties(name, all=(not normalize))
                 for property in reversed(properties):
-                    if normalize and property.name == nname:
-                        property.propertyValue = newp.propertyValue.cssText
-                        property.priority = newp.priority
-                        return
-                    elif property.literalname == name:
-                        property.propertyValue = newp.propertyValue.cssText
-                        property.priority = newp.priority
+                    if (normalize and property.name == nname) or (
+                        property.literalname == name
+                    ):
+                        oldvalue = property.propertyValue.cssText
+                        try:
+                            property.propertyValue = newp.propertyValue.cssText
+                            property.priority = newp.priority
+                        except Exception:
+                            # (e.g. an unknown priority) nothing is taken over
+                            property.propertyValue = oldvalue
+                            raise
                         return
 
             # not yet set or forced omit replace
